@@ -32,8 +32,14 @@ Make(k) == /\ N < MaxObj /\ k \in Kinds /\ k # "Conformer"
            /\ last' = [act |-> "make", kind |-> k, equal |-> TRUE]
 
 (* cells that the deviation makes a copy share with its source *)
-SharedBy(r) == IF "SharedAttribOnEvolve" \in Deviations /\ r \in {"construct", "concat", "upcast", "ensemble_from"}
+SharedBy(r) == IF "SharedAttribOnEvolve" \in Deviations /\ r \in {"construct", "concat", "join", "upcast", "ensemble_from"}
                  THEN {"atomattr", "atomattr_e", "atomnest", "bondattr", "bondattr_e", "molnest"} ELSE {}
+
+(* cells of a product of TWO sources that are not defined by the first one: object-level attributes; for a join also the  *)
+(* second bond (the first fragment's bond to its attachment point is gone, the product's second bond is the other's)      *)
+NotInherited(r) == CASE r = "concat" -> {"molattr", "molnest"}
+                     [] r = "join"   -> {"molattr", "molnest", "bondattr_e"}
+                     [] OTHER        -> {}
 
 Copy(rt, i) ==
   /\ N < MaxObj /\ i \in 1..N /\ rt \in Routes /\ rt.from = objs[i].kind
@@ -41,8 +47,8 @@ Copy(rt, i) ==
          g == Grp(ngrp)
      IN objs' = Append(objs, [kind |-> rt.to,
                               cnt  |-> [c \in Cell |-> IF c \in CellsOf[rt.to] \cap CellsOf[rt.from]
-                                                          /\ ~(rt.r = "concat" /\ c \in {"molattr", "molnest"})   \* two sources: object-level attributes are not defined for the product
-                                                          /\ ~("DropCharges" \in Deviations /\ c = "chg" /\ rt.r \in {"construct", "concat"})
+                                                          /\ c \notin NotInherited(rt.r)
+                                                          /\ ~("DropCharges" \in Deviations /\ c = "chg" /\ rt.r \in {"construct", "concat", "join"})
                                                        THEN objs[i].cnt[c] ELSE 0],
                               grp  |-> [c \in Cell |-> IF c \in shared THEN objs[i].grp[c] ELSE g[c]],
                               view |-> 0, src |-> i])
@@ -79,7 +85,7 @@ NoSharedCell == \A i, j \in 1..N : (i # j /\ ~IsViewPair(i, j)) =>
 Independent == [][last'.act = "mutate" =>
                     \A j \in 1..N : (j # last'.i /\ ~IsViewPair(j, last'.i)) => objs'[j].cnt = objs[j].cnt]_vars
 CopyEqual == [][last'.act = "copy" =>
-                  \A c \in (CellsOf[objs'[N + 1].kind] \cap CellsOf[objs[last'.i].kind]) \ (IF last'.route = "concat" THEN {"molattr", "molnest"} ELSE {}) :
+                  \A c \in (CellsOf[objs'[N + 1].kind] \cap CellsOf[objs[last'.i].kind]) \ NotInherited(last'.route) :
                       objs'[N + 1].cnt[c] = objs[last'.i].cnt[c]]_vars
 ViewWritesThrough == [][last'.act = "mutate" =>
                           \A j \in 1..N : IsViewPair(j, last'.i) /\ last'.cell \in CellsOf[objs[j].kind]
